@@ -2596,13 +2596,15 @@ class Recipe:
                         # what each well lost in the remove step
                         flows["out"] += vfunc(step.to[0].wells) - vfunc(step.to[1].wells)
                     else:
-                        flows["in"] += vfunc(step.to[1].wells) - vfunc(step.to[0].wells)
+                        # a well of the same plate that gave material in this step did not receive a negative amount
+                        flows["in"] += np.maximum(vfunc(step.to[1].wells) - vfunc(step.to[0].wells), 0)
                 if isinstance(step.frm[0], Container) and step.frm[0].name == container.name:
                     flows["out"] += (sum(map(helper, step.frm[0].contents.items())) -
                                      sum(map(helper, step.frm[1].contents.items())))
                 if isinstance(step.frm[0], Plate) and step.frm[0].name == container.name:
                     vfunc = np.vectorize(plate_helper, otypes=[float])
-                    flows["out"] += vfunc(step.frm[0].wells) - vfunc(step.frm[1].wells)
+                    # likewise a well of the same plate that received material did not give a negative amount
+                    flows["out"] += np.maximum(vfunc(step.frm[0].wells) - vfunc(step.frm[1].wells), 0)
         precision = config.precisions[unit] if unit in config.precisions else config.precisions['default']
         for key in flows:
             if isinstance(flows[key], np.ndarray):
